@@ -8,8 +8,9 @@ VARIABLE i
 Fn(r) == [p \in DOMAIN r |-> r[p]]
 TInit == /\ i \in 1..Len(Recs) /\ src = [p \in Paths |-> IF p \in DOMAIN Recs[i].src THEN Recs[i].src[p] ELSE Absent]
          /\ listing = <<>> /\ counts = [nfiles |-> 0, size |-> 0] /\ store = {} /\ reloaded = <<>>
-         /\ fresh = [r \in Routes |-> <<>>] /\ pc = "stage" /\ act = [op |-> "Init"]
-TNext == Next /\ UNCHANGED i
+         /\ fresh = [r \in Routes |-> <<>>] /\ pc = "stage" /\ act = [op |-> "Init"] /\ round = 0
+\* (a record is one round: the second round of a case is a record of its own, staged with the first round's warm cache)
+TNext == Next /\ act'.op # "Restage" /\ UNCHANGED i
 TSpec == TInit /\ [][TNext]_<<vars, i>>
 Say(clause) == PrintT(<<"VERDICT", "C02", clause, i, 0, {}>>)
 R == Recs[i]
